@@ -2,6 +2,7 @@ package mon
 
 import (
 	"fmt"
+	"math"
 	"strconv"
 	"strings"
 
@@ -154,7 +155,10 @@ func corruptions(r *rng.R, root *model.Node, path string) []string {
 			} else if st == model.Resolved && parent.Ref != nil {
 				n = len(parent.Ref.E)
 			}
-			for _, idx := range []string{strconv.Itoa(n), strconv.Itoa(n + 1), "99999999999999999999", "x", "1x", " 1", "one", segs[i].Text + "-", segs[i].Text + "+", segs[i].Text + "/", segs[i].Text + ",", "1-", "1+", "1/", "2*", "1 ", "1:", segs[i].Text + "e", "0-"} {
+			for _, idx := range []string{strconv.Itoa(n), strconv.Itoa(n + 1), "99999999999999999999",
+				// the ends of the integer ranges (an index computation such as i+1 or 2*i wraps there)
+				strconv.Itoa(math.MaxInt), strconv.Itoa(math.MaxInt - 1), strconv.Itoa(math.MaxInt / 2), strconv.Itoa(math.MaxInt/2 + 1), "2147483647", "2147483648", "4294967295", "4294967296",
+				"9223372036854775807", "9223372036854775808", "18446744073709551615", "18446744073709551616", "x", "1x", " 1", "one", segs[i].Text + "-", segs[i].Text + "+", segs[i].Text + "/", segs[i].Text + ",", "1-", "1+", "1/", "2*", "1 ", "1:", segs[i].Text + "e", "0-"} {
 				g[i].Text = idx
 				out = append(out, join(g))
 			}
